@@ -40,9 +40,9 @@ var modelMap = map[string]string{
 	"internal/stringslite.HasSuffix":       "HasSuffix",
 	"internal/stringslite.Clone":           "CloneString",
 	"strings.Clone":                        "CloneString",
-	"internal/oserror.init":                "",
 	"html.UnescapeString":                  "HTMLUnescape",
 	"fmt.Sprintf":                          "Sprintf",
+	"errors.Is":                            "ErrorsIs",
 	"fmt.Errorf":                           "Errorf",
 	"fmt.Sprint":                           "Sprint",
 	"fmt.Sprintln":                         "Sprintln",
@@ -86,6 +86,13 @@ var nativeIntrinsics = map[string]intrinsic{
 		}
 		it.unsupported(msg)
 		return Value{}
+	},
+	"github.com/open2b/scriggo/internal/vmodels.IsComparable": func(it *Interp, fn *ssa.Function, args []Value) Value {
+		ifc, _ := args[0].Ref.(*Iface)
+		if ifc == nil {
+			return Value{Bits: 1}
+		}
+		return Value{Bits: b2u(types.Comparable(ifc.t))}
 	},
 	"runtime.Gosched":     noop,
 	"runtime.KeepAlive":   noop,
